@@ -5,6 +5,7 @@ All statements quantify over every configuration and every event sequence (every
 close / GC interleaving) the model can take from the initial state; proofs are by induction over the sequence.
 -/
 import JanetModel.Loop.Model
+import JanetModel.Loop.FdsSpawn
 
 namespace JanetModel.Props.C20
 open JanetModel.Loop
@@ -678,5 +679,162 @@ example : (janetLoop Cfg.ofGen { init with runq := [1] }
     [ { expired := [], tasks := [⟨1, false, [.sched 2], false⟩, ⟨2, false, [.tadd ⟨2, false⟩], true⟩], stale := fun _ => false, delivered := [] },
       { expired := [(⟨2, false⟩, some 2)], tasks := [⟨2, false, [], false⟩], stale := fun _ => false, delivered := [] } ]).map summary
     = some (0, 0, true, true, 0) := by decide
+
+/-! ## descriptors: every open descriptor has one responsible holder; no operation leaks or double-closes (session 3)
+
+Model `JanetModel.Fds` (Loop/Fds.lean): kernel descriptor table + owning objects + the C locals of the running function; one
+model function per C function that creates / closes descriptors (ev.c, net.c, os.c, io.c, filewatch.c), error paths included. -/
+
+section Descriptors
+
+/-- `function:key` of every create / close / wrap site the translator found in the five files -/
+def fdGenKeys : List Fds.Site :=
+  (Gen.Fds.fdSites.filter (fun x => x.2.2.1 != "raise")).map (fun x => (x.2.1, x.2.2.2.1))
+
+/-- inputs under which the model functions, together, pass through every site they mirror -/
+def fdCoverOps : List Fds.Op :=
+  [.osPipe true true true 1 2, .osPipe true true false 1 2, .osOpen true true 1, .watcherInit true 1, .watcherUnlisten 1,
+   .toFile true true true 1, .toFile true true false 1, .streamMarshal true true 1,
+   .ioFopen true true true true true 1, .ioFopen true true true false false 1, .ioFopen true true true false true 1, .ioTemp true 1,
+   .netAccept true 1, .netConnect true true true true false true 1, .netConnect true false true false true false 1,
+   .netListen true true true false [] true true true 1, .netListen true false true true [.serverifyFail, .bindFail] true true true 1,
+   .netListen true false true true [] true false true 1, .netListen true false true true [] true false false 1,
+   .streamClose 1, .streamGc 1, .fileClose 1, .fileGc 1, .procClose (some 1) (some 2) (some 3),
+   .osExecute true true true .pipeOk .pipeOk .pipeOk 1 2 3, .osExecute true true false .pipeOk .pipeOk .pipeOk 1 2 3,
+   .osExecute true true true .pipeFailF .pipeOk .pipeOk 1 2 3, .osExecute true true true .pipeOk .pipeOk .pipeFailP 1 2 3, .osExecute true true true .tmpOk .tmpOk .tmpSetfdFail 1 2 3,
+   .osExecute true true true .tmpOkFileDupOk .tmpOk .tmpOk 1 2 3,
+   .osExecute true true true .fileDupFail .pipeOk .pipeOk 1 2 3, .osExecute true true true .none .fileDupFail .pipeOk 1 2 3,
+   .evInit 1 2 3 4, .evDeinit 1 2 3 4]
+
+/-- the call sites (innermost first, whole call chain) of the model's create / close / wrap operations -/
+def fdModelSites : List Fds.Site :=
+  (((Fds.progs Fds.Cfg.fixed fdCoverOps).filter (fun p => p.kind != "leave")).map Fds.Prim.site).flatten.eraseDups
+
+/-- model-side names of hand-overs that are not calls: stores into `janet_vm` fields, the dup written into a marshalled message -/
+def fdPseudoSites : List Fds.Site :=
+  [("janet_stream_marshal", "janet_marshal_int"), ("janet_ev_setup_selfpipe", "janet_vm.selfpipe"), ("janet_ev_init", "janet_vm.epoll"),
+   ("janet_ev_init", "janet_vm.timerfd")]
+
+/-- sites the model does not pass through: the deferred close of a stream marked TOCLOSE (same `janet_stream_close`), the
+    `janet_stream` → `janet_stream_ext` forwarding, unmarshalling a core/file (re-owns a descriptor that travelled in a message),
+    the NOT_CLOSEABLE wrappers of stdin / stdout / stderr -/
+def fdPassiveSites : List Fds.Site :=
+  [("janet_stream_checktoclose", "janet_stream_close(stream)"), ("janet_stream", "janet_stream_ext(handle)"), ("io_file_unmarshal", "fdopen(fd)"),
+   ("janet_lib_io", "janet_makefile(stdout)"), ("janet_lib_io", "janet_makefile(stderr)"), ("janet_lib_io", "janet_makefile(stdin)")]
+
+/-- ★ tie: every descriptor-creating / -closing / -wrapping call site in ev.c, net.c, os.c, io.c, filewatch.c is mirrored by a
+    model operation (or is one of the six listed passive sites), and every site the model mirrors exists in the source.  A new
+    `socket()` nobody models, or a `close()` deleted from an error path, makes this false and names the site. -/
+theorem fd_sites_match :
+    (fdGenKeys.filter (fun k => !(fdModelSites.contains k || fdPassiveSites.contains k))) = [] ∧
+    (fdModelSites.filter (fun k => !(fdGenKeys.contains k || fdPseudoSites.contains k))) = [] ∧
+    (fdPassiveSites.filter (fun k => !fdGenKeys.contains k)) = [] := by decide +kernel
+
+/-- ★ tie: the order facts the model depends on, computed from the generated table: in os_execute_impl every call that can
+    raise an argument error comes before the first make_pipes and a failed get_stdio_for_handle closes the unwrapped pipe
+    ends; in cfun_io_fopen janet_optsize comes before fopen and a failed setvbuf closes the file; a failed net/connect closes
+    through the stream -/
+theorem fd_cfg_match : Fds.Cfg.ofGen = Fds.Cfg.fixed := by decide +kernel
+
+/-- each model function keeps the ownership discipline for all inputs — see `Fds.op_ok`; here the two with the largest case
+    analyses, for the record -/
+theorem os_execute_no_leak (isSpawn argsOk spawnOk : Bool) (a b c : Fds.Slot) (oa ob oc : Fds.Oid) :
+    Fds.check [] (Fds.osExecute Fds.Cfg.fixed isSpawn argsOk spawnOk a b c oa ob oc) = some [] := Fds.osExecute_ok isSpawn argsOk spawnOk a b c oa ob oc
+
+theorem net_listen_no_leak (a b c d : Bool) (ts : List Fds.ListenTry) (f g h : Bool) (o : Fds.Oid) :
+    Fds.check [] (Fds.netListen a b c d ts f g h o) = some [] := Fds.netListen_ok a b c d ts f g h o
+
+/-- every operation, with any inputs (any failure pattern), keeps the discipline -/
+theorem fd_op_ok (op : Fds.Op) : Fds.check [] (op.prog Fds.Cfg.fixed) = some [] := Fds.op_ok op
+
+/-- the ownership invariant is preserved by every step that does not violate ownership -/
+theorem fd_exec_inv (ext : List Fds.Fd) (ps : List Fds.Prim) {s s' : Fds.St} (hi : Fds.Inv ext s) (h : Fds.exec s ps = some s') : Fds.Inv ext s' :=
+  Fds.exec_inv ext ps hi h
+
+/-- ★ descriptors are balanced: for every sequence of operations (streams, files, pipes, sockets, accepts, watchers, subprocesses
+    with any redirections, explicit closes, finalisers; every failure pattern of every libc call and every argument error)
+    from a state where each open descriptor has a holder: no step violates ownership (nothing leaks, nothing is closed twice),
+    no C local is left holding a descriptor, and #open descriptors − #open objects is unchanged -/
+theorem fds_balanced (ext : List Fds.Fd) (ops : List Fds.Op) {s : Fds.St} (hi : Fds.Inv ext s) (hl : s.loose = []) :
+    ∃ s', Fds.exec s (Fds.progs Fds.Cfg.fixed ops) = some s' ∧ s'.loose = [] ∧ Fds.Inv ext s' ∧
+      s'.open.length + s.objs.length = s.open.length + s'.objs.length := by
+  obtain ⟨s', h, hl', hi'⟩ := Fds.progs_run ext ops hi hl
+  refine ⟨s', h, hl', hi', ?_⟩
+  have c1 := Fds.inv_count hi
+  have c2 := Fds.inv_count hi'
+  rw [hl] at c1
+  rw [hl'] at c2
+  simp at c1 c2
+  omega
+
+/-- ★ a cycle that ends with all its handles closed or collected (as many open objects as before) ends with as many open
+    descriptors as before -/
+theorem fds_cycle_restores (ext : List Fds.Fd) (ops : List Fds.Op) {s s' : Fds.St} (hi : Fds.Inv ext s) (hl : s.loose = [])
+    (h : Fds.exec s (Fds.progs Fds.Cfg.fixed ops) = some s') (hobjs : s'.objs.length = s.objs.length) : s'.open.length = s.open.length := by
+  obtain ⟨s2, h2, _, _, hc⟩ := fds_balanced ext ops hi hl
+  rw [h] at h2
+  cases h2
+  omega
+
+/-- from program start (descriptors 0, 1, 2 open) -/
+theorem fds_from_start (ops : List Fds.Op) :
+    ∃ s', Fds.exec (Fds.St.init [0, 1, 2]) (Fds.progs Fds.Cfg.fixed ops) = some s' ∧ s'.open.length = 3 + s'.objs.length := by
+  obtain ⟨s', h, _, _, hc⟩ := fds_balanced [0, 1, 2] ops (Fds.inv_init _) rfl
+  refine ⟨s', h, ?_⟩
+  simp [Fds.St.init] at hc
+  omega
+
+/-! witnesses: what the same model says about the trees before the fixes (defects found through these theorems) -/
+
+/-- an argument error raised after the :pipe pipes exist (`(os/spawn ["true" 42] :p {:in :pipe})`): the function is left while
+    `pipe_in` / `new_in` hold descriptors — two more open descriptors per call, for ever -/
+theorem spawn_arg_error_leaks :
+    Fds.exec (Fds.St.init [0, 1, 2]) (Fds.osExecute { Fds.Cfg.fixed with spawnChecksFirst := false } true false true .pipeOk .none .none 7 8 9) = none ∧
+    (Fds.execRaw (Fds.St.init [0, 1, 2])
+      (Fds.osExecute { Fds.Cfg.fixed with spawnChecksFirst := false } true false true .pipeOk .none .none 7 8 9)).open.length = 5 := by
+  decide +kernel
+
+/-- a failed dup of a core/file redirection leaves the not yet wrapped pipe ends open -/
+theorem spawn_stdio_fail_leaks :
+    Fds.exec (Fds.St.init [0, 1, 2]) (Fds.osExecute { Fds.Cfg.fixed with spawnStdioFailCloses := false } true true true .fileDupFail .pipeOk .none 7 8 9) = none ∧
+    (Fds.execRaw (Fds.St.init [0, 1, 2])
+      (Fds.osExecute { Fds.Cfg.fixed with spawnStdioFailCloses := false } true true true .fileDupFail .pipeOk .none 7 8 9)).open.length = 4 := by
+  decide +kernel
+
+/-- `(file/open path :r "bad")`: janet_optsize raises after fopen -/
+theorem fopen_bad_size_leaks :
+    Fds.exec (Fds.St.init [0, 1, 2]) (Fds.ioFopen { Fds.Cfg.fixed with fopenSizeFirst := false } true false true false true 7) = none ∧
+    (Fds.execRaw (Fds.St.init [0, 1, 2]) (Fds.ioFopen { Fds.Cfg.fixed with fopenSizeFirst := false } true false true false true 7)).open.length = 4 := by
+  decide +kernel
+
+/-- a failed net/connect that closes the socket directly after the stream took it over closes a descriptor it does not
+    hold (the stream's finaliser closes the — by then reused — number again) -/
+theorem connect_fail_double_close :
+    Fds.exec (Fds.St.init [0, 1, 2]) (Fds.netConnect { Fds.Cfg.fixed with connectFailViaStream := false } true false true false true false 7) = none := by
+  decide +kernel
+
+/-- the finite check over all slot states is not vacuous: it fails for each unfixed variant of os_execute_impl -/
+theorem os_execute_check_detects :
+    Fds.osExecuteAllOk { Fds.Cfg.fixed with spawnChecksFirst := false } = false ∧
+    Fds.osExecuteAllOk { Fds.Cfg.fixed with spawnStdioFailCloses := false } = false := by
+  decide +kernel
+
+/-- non-vacuity: a VM start, a pipe, a TCP listener with two failed bind attempts, a subprocess with three :pipe redirections,
+    a spawn that fails after creating pipes, a file; everything closed / collected again: 3 → 7 → … → back to 7 (VM) -/
+example : ((Fds.exec (Fds.St.init [0, 1, 2]) (Fds.progs Fds.Cfg.fixed
+    [.evInit 100 101 102 103, .osPipe true true true 1 2, .netListen true false true true [.bindFail, .serverifyFail] true false true 3,
+     .osExecute true true true .pipeOk .pipeOk .pipeOk 4 5 6, .osExecute true true false .pipeOk .pipeOk .none 7 8 9,
+     .ioFopen true true true false true 10])).map (fun s => (s.open.length, s.objs.length, s.loose.length))) = some (14, 11, 0) := by
+  decide +kernel
+
+example : ((Fds.exec (Fds.St.init [0, 1, 2]) (Fds.progs Fds.Cfg.fixed
+    [.evInit 100 101 102 103, .osPipe true true true 1 2, .netListen true false true true [.bindFail, .serverifyFail] true false true 3,
+     .osExecute true true true .pipeOk .pipeOk .pipeOk 4 5 6, .osExecute true true false .pipeOk .pipeOk .none 7 8 9,
+     .ioFopen true true true false true 10,
+     .procClose (some 4) (some 5) (some 6), .streamClose 1, .streamGc 2, .streamGc 3, .fileGc 10, .streamClose 1])).map
+      (fun s => (s.open.length, s.objs.length, s.loose.length))) = some (7, 4, 0) := by
+  decide +kernel
+
+end Descriptors
 
 end JanetModel.Props.C20
